@@ -4,11 +4,19 @@
     TreeValidate  validate_taxonomy_tree  ⇔  Strict          (sound + complete)
     TreePairs     combos2 / orderPair / crossPairs combinatorics
     TreeLeaves    hierarchy indexing, asLeaves, partition, parents
+    TreeAnc       ancestorAt vs asLeaves
+    TreeDrop      flatten / dropLevel: result well formed, leaves unchanged
+    TreeRecords   fromRecordsRaw characterised by the records
+    TreePaths     root-to-leaf paths of the built tree = the records
   and glues the model's `leafPairs` to `crossPairs`.
 -/
 import CTM.Lemmas.TreeLeaves
 import CTM.Lemmas.TreeValidate
 import CTM.Lemmas.TreePairs
+import CTM.Lemmas.TreeAnc
+import CTM.Lemmas.TreeDrop
+import CTM.Lemmas.TreeRecords
+import CTM.Lemmas.TreePaths
 namespace CTM.RawTree
 variable {t : RawTree}
 
@@ -71,5 +79,69 @@ theorem children_none_ok_iff {cs : List Node} :
   cases h : t.hierarchy.head? with
   | none => simp
   | some l0 => simp [eq_comm]
+
+/-! ### level-name forms, ancestors across `dropLevel` -/
+
+theorem mem_asLeaves_iff_ancestorAt_lv (s : Strict t) (d : DictOK t) (hn : t.hierarchy.Nodup)
+    {l leaf : Level} (hl : l ∈ t.hierarchy) (hleaf : t.leafLevel = some leaf)
+    {a : Node} (ha : a ∈ t.nodesAt l) {n : Node} (hnl : n ∈ t.nodesAt leaf) :
+    n ∈ t.asLeaves l a ↔ t.ancestorAt leaf n l = some a := by
+  obtain ⟨i, hi, rfl⟩ := List.mem_iff_getElem.1 hl
+  have hne : t.hierarchy ≠ [] := List.ne_nil_of_length_pos (by omega)
+  rw [leafLevel_eq hne] at hleaf
+  cases hleaf
+  exact mem_asLeaves_iff_ancestorAt s d hn hi ha hnl
+
+theorem ancestorAt_isSome_lv (s : Strict t) (hn : t.hierarchy.Nodup)
+    {l leaf : Level} (hl : l ∈ t.hierarchy) (hleaf : t.leafLevel = some leaf)
+    {n : Node} (hnl : n ∈ t.nodesAt leaf) :
+    ∃ a, t.ancestorAt leaf n l = some a ∧ a ∈ t.nodesAt l := by
+  obtain ⟨i, hi, rfl⟩ := List.mem_iff_getElem.1 hl
+  have hne : t.hierarchy ≠ [] := List.ne_nil_of_length_pos (by omega)
+  rw [leafLevel_eq hne] at hleaf
+  cases hleaf
+  exact ancestorAt_isSome s hn (by omega) (by omega) hnl
+
+/-- dropping a non-leaf level changes no leaf's ancestor at any remaining level -/
+theorem drop_ancestorAt (w : WF t) {i : Nat} (hi : i < t.hierarchy.length)
+    (hnl : i + 1 < t.hierarchy.length) {allowLeaf : Bool} {t' : RawTree}
+    (ht' : t.dropLevelRaw t.hierarchy[i] allowLeaf = .ok t') {leaf : Level}
+    (hleaf : t.leafLevel = some leaf) {n : Node} (hmem : n ∈ t.nodesAt leaf)
+    {l : Level} (hl : l ∈ t'.hierarchy) :
+    t'.ancestorAt leaf n l = t.ancestorAt leaf n l := by
+  have s := strict_of_validate w.valid
+  have w' := dropLevelRaw_wf w hi ht'
+  have s' := strict_of_validate w'.valid
+  have hleaf' : t'.leafLevel = some leaf := by
+    rw [drop_leafLevel_nonleaf w.hNodup hi ht' hnl]; exact hleaf
+  -- l is an old level other than the dropped one
+  have hl0 := hl
+  rw [drop_hierarchy w.hNodup hi ht'] at hl0
+  have hlt : l ∈ t.hierarchy := (List.eraseIdx_sublist _ _).subset hl0
+  obtain ⟨j, hj, rfl⟩ := List.mem_iff_getElem.1 hlt
+  have hji : j ≠ i := by
+    rintro rfl
+    have hnd := w'.hNodup
+    rw [drop_hierarchy w.hNodup hi ht'] at hnd
+    -- h[i] would occur in h.eraseIdx i, i.e. twice in h
+    rw [List.mem_eraseIdx_iff_getElem] at hl0
+    obtain ⟨k, hk, hki, hke⟩ := hl0
+    exact hki ((List.getElem_inj w.hNodup).1 hke)
+  have hleafmem : leaf ∈ t.hierarchy := by
+    rw [leafLevel_eq w.hNe] at hleaf; cases hleaf; exact List.getElem_mem _
+  have hlne : leaf ≠ t.hierarchy[i] := by
+    rw [leafLevel_eq w.hNe] at hleaf; cases hleaf
+    intro e; have := (List.getElem_inj w.hNodup).1 e; omega
+  have hmem' : n ∈ t'.nodesAt leaf := by
+    rw [drop_nodesAt w.hNodup hi ht' hlne]; exact hmem
+  obtain ⟨a, ha, ham⟩ := ancestorAt_isSome_lv s w.hNodup hlt hleaf hmem
+  have h1 : n ∈ t.asLeaves t.hierarchy[j] a :=
+    (mem_asLeaves_iff_ancestorAt_lv s w.dict w.hNodup hlt hleaf ham hmem).2 ha
+  have h2 : n ∈ t'.asLeaves t.hierarchy[j] a :=
+    (drop_asLeaves w.hNodup hi ht' hnl hj hji a).mem_iff.2 h1
+  have ham' : a ∈ t'.nodesAt t.hierarchy[j] := by
+    rw [drop_nodesAt_idx w.hNodup hi ht' hj hji]; exact ham
+  rw [ha]
+  exact (mem_asLeaves_iff_ancestorAt_lv s' w'.dict w'.hNodup hl hleaf' ham' hmem').1 h2
 
 end CTM.RawTree
